@@ -231,16 +231,18 @@ inductive Dec where
   | oob              -- the C code would read outside the table
 deriving Repr, DecidableEq, BEq
 
-/-- `while (offset > *lns) { offset -= *lns; lns += 3; }` — `none` when the scan leaves the table -/
+/-- `while (offset > *lns) { offset -= *lns; lns += 3; }` — the guard is `Gen.C18.scanContinues`, transcribed from the
+    source on every run; `none` when the scan leaves the table -/
 def findRun : List Run → Int → Option Run
   | [], _ => none
-  | r :: rest, off => if off > r.len then findRun rest (off - r.len) else some r
+  | r :: rest, off => if scanContinues off r.len then findRun rest (off - r.len) else some r
 
-/-- first pass of `translate_absolute_line`; `pre` collects the skipped segments -/
+/-- first pass of `translate_absolute_line` (guard `Gen.C18.pass1Continues`, transcribed from the source on every
+    run); `pre` collects the skipped segments -/
 def pass1 : List Seg → Int → List Seg → Option (List Seg × Int × Nat)
   | [], _, _ => none
   | s :: rest, t, pre =>
-    if t > s.count then
+    if pass1Continues t s.count then
       match rest with
       | [] => none                                  -- `if (p1 >= end) return -1;`
       | _ => pass1 rest (t - s.count) (pre ++ [s])
